@@ -7,6 +7,8 @@ R11.x      extract(Matrix33) and extract(Matrix44 with the same 3x3) have identi
 R11.q      toQuat().toMatrix33() == toMatrix33() (half-angle identities)
 R11.xyz    order XYZ: toMatrix44() == Matrix44::setEulerAngles
 R11.perm   setXYZVector / toXYZVector / XYZ-layout constructor are mutually inverse slot permutations
+R11.near   nearestRotation (six non-repeated fixed-axis orders): its alternative candidate is pi - angle on exactly the component
+           that leaves Euler(order).setXYZVector(v).toMatrix33() unchanged (trig substitution), pi + angle on the other two
 R11.mod    angleMod: congruent to its argument mod 2*pi with result in [-pi, pi] after fmod; simpleXYZRotation per slot
 R11.rt     extract(toMatrix33(angles)).toMatrix33() == toMatrix33(angles) on the generic cell (cos of the middle
            angle positive), using cos(atan2(y,x)) = x/sqrt(x^2+y^2), sin(atan2(y,x)) = y/sqrt(x^2+y^2)
@@ -48,11 +50,95 @@ def gen(t, orders):
     a('w_simpleXYZ', '%s& x, const %s& tgt' % (V, V), '%s::simpleXYZRotation(x, tgt);' % Eu, k='simple')
     return tu
 
+NONREP = ['XYZ', 'XZY', 'YZX', 'YXZ', 'ZXY', 'ZYX']
+
+def gen_near(t):
+    """nearestRotation per non-repeated fixed-axis order with simpleXYZRotation opaque (its in/out vector is then an
+    argument of the call node), and the matrix of an XYZ-layout angle vector of that order"""
+    E = ELEM[t][0]
+    V = 'Vec3<%s>' % E; M3 = 'Matrix33<%s>' % E; Eu = 'Euler<%s>' % E
+    tu = TU('c11n_' + t, header=HDR, opaque=('17simpleXYZRotation',))
+    for o in NONREP:
+        P_ = '%s::%s' % (Eu, o)
+        tu.add('w_near_' + o, '%s& x, const %s& tgt' % (V, V), '%s::nearestRotation(x, tgt, %s);' % (Eu, P_), o=o, k='near')
+        tu.add('w_vecmat_' + o, '%s& m, const %s& v' % (M3, V), '%s e(0, 0, 0, %s); e.setXYZVector(v); m = e.toMatrix33();' % (Eu, P_), o=o, k='vecmat')
+    return tu
+
+def check_near(rep, R, t):
+    """R11.near: the alternative candidate of nearestRotation is (pi + a, pi - a, pi + a) with the minus sign on exactly
+    the component for which Euler(order).setXYZVector(.).toMatrix33() is invariant, i.e. it denotes the same rotation"""
+    import math
+    E, sz, lt = ELEM[t]
+    for o in NONREP:
+        oid = 'nearestRotation[%s]<%s>' % (o, E)
+        S = R.get('w_near_' + o); SM = R.get('w_vecmat_' + o)
+        if S is None or SM is None:
+            rep.ob(oid, 'R11.near', UNDECIDED, R.err.get('w_near_' + o, R.err.get('w_vecmat_' + o, 'not analysed'))); continue
+        where = fn_where(S.fn)
+        try:
+            calls = [c for nm, c, ln in S.calls if 'simpleXYZRotation' in nm]
+            if len(calls) != 2:
+                rep.ob(oid, 'R11.near', VIOLATED if calls else UNDECIDED, '%d calls of simpleXYZRotation, expected 2 (the angles themselves and the alternative)' % len(calls), where); continue
+            first, second = calls
+            def cells(mem):
+                d = {}
+                if mem.op == 'mem':
+                    a = mem.args[1:]
+                    for i in range(0, len(a), 2): d[T.const_value(a[i])] = a[i + 1]
+                return d
+            m2 = [a for a in second.args if a.ty == 'mem'][0]
+            c2 = cells(m2)
+            signs = {}
+            for c in range(3):
+                v = c2.get(c * sz)
+                if v is not None and v.op == 'fptrunc': v = v.args[0]        # float: M_PI +- x is formed in double
+                if v is None or v.op != 'fadd': signs[c] = None; continue
+                cs = [x for x in v.args if x.op == 'const']; xs = [x for x in v.args if x.op != 'const']
+                if len(cs) != 1 or len(xs) != 1 or abs(float(T.const_value(cs[0])) - math.pi) > 1e-6: signs[c] = None; continue
+                x = xs[0]; neg = False
+                if x.op == 'fneg': x = x.args[0]; neg = True
+                if x.op == 'fpext': x = x.args[0]
+                if x.op == 'fneg': x = x.args[0]; neg = not neg
+                # x must be component c of the vector left by the first call
+                ok = x.op == 'sel' and x.args[0].op == 'callmem' and x.args[0].args[0] is first and T.const_value(x.args[1]) == c * sz
+                signs[c] = ('-' if neg else '+') if ok else None
+            if any(v is None for v in signs.values()):
+                rep.ob(oid, 'R11.near', VIOLATED, 'the alternative angles are not pi +- (simplified angle) per component: %s' % signs, where); continue
+            # matrix invariance under the substitution
+            mat = [SM.out('a0', i * sz, sz, lt) for i in range(9)]
+            v = [agg.slot_in('a1', i, t) for i in range(3)]
+            ctx = P.Ctx()
+            base = [ctx.rat(x) for x in mat]
+            def akey(cx, node):
+                (mono, _), = cx.rat(node)[0].items()
+                return mono[0][0]
+            negate = set()
+            for c in range(3):
+                negate.add(akey(ctx, T.call('cos', [v[c]], lt)))                            # cos(pi +- a) = -cos a
+                if signs[c] == '+': negate.add(akey(ctx, T.call('sin', [v[c]], lt)))       # sin(pi + a) = -sin a ; sin(pi - a) = sin a
+            def flip(poly):
+                out = {}
+                for mono, co in poly.items():
+                    sg = 1
+                    for k_, pw in mono:
+                        if k_ in negate and pw % 2: sg = -sg
+                    out[mono] = co * sg
+                return out
+            diff = [i for i in range(9) if not ctx.requal((flip(base[i][0]), flip(base[i][1])), base[i])]
+            minus = [c for c in range(3) if signs[c] == '-']
+            rep.ob(oid, 'R11.near', VIOLATED if diff else HOLDS,
+                   'the alternative (pi%sx, pi%sy, pi%sz) is a different rotation for this order (entry [%d][%d] changes): the sign flip belongs on the middle rotation axis' % (signs[0], signs[1], signs[2], diff[0] // 3, diff[0] % 3) if diff else
+                   'alternative = pi - angle on component %s, pi + angle on the others: same rotation matrix for order %s' % ('xyz'[minus[0]] if len(minus) == 1 else minus, o), where)
+        except (P.NotPoly, vg.Unsupported, OverflowError, IndexError) as e:
+            rep.ob(oid, 'R11.near', UNDECIDED, repr(e)[:300], where)
+
 def main(rep, ws, tier):
     types = 'f' if tier == 'quick' else 'fd'
     orders = ORDERS
-    tus = [gen(t, orders) for t in types]
-    an = Analysed(ws, tus, rep)
+    tus = [gen(t, orders) for t in types]; tun = [gen_near(t) for t in types]
+    an = Analysed(ws, tus + tun, rep)
+    for tn, t in zip(tun, types):
+        check_near(rep, an[tn], t)
     for tu, t in zip(tus, types):
         R = an[tu]; E, sz, lt = ELEM[t]
         def S_(name):
